@@ -1083,6 +1083,16 @@ def g_bddinclall(rng):
 
 
 def g_bddtd(rng):
+    if rng.random() < 0.012:
+        # one automaton with 260-330 distinct leaf symbols (ids 8k, 8k+1, 8k+2: the nullary rank classes): the symbol dictionary
+        # of the BDD encodings and its code counter are pushed past 256 inside ONE case
+        m = rng.randint(260, 330)
+        ids = rng.sample([8 * k + r for k in range(200) for r in (0, 1, 2)], m)
+        rules = [(f, (), rng.choice([0, 0, 1])) for f in ids]
+        rules.append((4, (0, 1), 0))
+        rules.append((3, (1,), 1))
+        rng.shuffle(rules)
+        return f"bddtd {TA(rules, [0]).tok()}"
     if rng.random() < 0.6:
         # the converted automaton meets a natively loaded one (intersection, union, inclusion in both directions)
         A, B, _ = rand_pair(rng, nmax=4)
@@ -1481,7 +1491,7 @@ GENERATORS = {
 }
 
 
-def widen_symbols(rng, case, prob=0.3):
+def widen_symbols(rng, case, prob=0.5):
     """BDD encodings number symbol NAMES through a process-wide dictionary and counter: with only s0..s7 a process never sees the
     counter beyond 8.  In a fraction of the BDD cases every symbol id f becomes f + 8·K (K random per symbol, consistent inside
     the case; the rank class f mod 8 is kept), so that one harness process registers hundreds of names."""
@@ -1505,7 +1515,7 @@ def widen_symbols(rng, case, prob=0.3):
         rules = []
         for (f, ks, p_) in A.rules:
             if f not in mp:
-                mp[f] = f + 8 * rng.randrange(0, 64)
+                mp[f] = f + 8 * rng.randrange(0, 128)
             rules.append((mp[f], ks, p_))
         return head + sep_ + TA(rules, A.finals).tok()
     return " ".join([toks[0]] + [remap_tok(t) for t in toks[1:]])
